@@ -13,16 +13,18 @@
       calls  |-> <<[op, rel, abs, a, b]>>]
    ops: initialize / gentle / ebpf_initialize (rel: by position, abs: an address is given),
         apply_eeprom, write_pdo_sm (a, b = sizes out, in), set_watchdog (a, b = times),
-        env_al (a = state), newobj (a second user's Terminal object).
+        env_al (a = state), newobj (a second user's Terminal object).  ebpf_initialize makes its own
+        EBPFTerminal object, on which the plain methods initialize / gentle / apply_eeprom are not
+        called afterwards (they are overridden there: st.ebpf).
 
    Part "eeprom": every category of up to MaxSm entries whose non-zero types are distinct, at
    most MaxOdd entries deviating from (length non-zero, enabled) by a choice in Odd (coded
    2 * lenz + en), each with
    three fixed call sequences (TemplatesA).  Part "calls": every call sequence of length
-   MaxCalls that respects the methods' preconditions (tracked in st), over the categories
-   Canon and three prior states.                                                            *)
+   MaxCalls that respects the methods' preconditions (tracked in st), over the first NCanon
+   categories of Canon and the prior states selected by PriorSel.                                                           *)
 EXTENDS Integers, Sequences, FiniteSets, TLC, Json
-CONSTANTS Part, MaxSm, MaxOdd, Odd, MaxCalls, NCanon
+CONSTANTS Part, MaxSm, MaxOdd, Odd, MaxCalls, NCanon, PriorSel
 
 VARIABLES sms, has41, stage, prior, calls, st
 vars == <<sms, has41, stage, prior, calls, st>>
@@ -70,16 +72,18 @@ TemplatesA(s) ==
 
 Canon == << <<E(1, 1, 1), E(2, 1, 1), E(3, 1, 1), E(4, 1, 1)>>,      \* the EL7031 of ethercat.rst
             <<E(1, 1, 1), E(2, 1, 1), E(3, 0, 1), E(4, 0, 1)>>,      \* sizes left to the PDO assignment
-            <<E(4, 1, 1)>>,                                          \* a simple input terminal
             <<>>,                                                    \* no category 41 at all
+            <<E(4, 1, 1)>>,                                          \* a simple input terminal
             <<E(3, 1, 1), E(4, 1, 1)>>,
             <<E(1, 1, 1), E(2, 1, 1), E(0, 0, 0), E(4, 1, 1)>> >>
-CanonHas41(k) == k # 4
-Priors == {Fresh, Stale(1), Stale(8)}
+CanonHas41(k) == k # 3
+Priors == (IF "fresh" \in PriorSel THEN {Fresh} ELSE {})
+          \cup (IF "stale1" \in PriorSel THEN {Stale(1)} ELSE {})
+          \cup (IF "stale8" \in PriorSel THEN {Stale(8)} ELSE {})
 
 (* ---- part "eeprom" ---- *)
 InitA == /\ sms = <<>> /\ has41 = TRUE /\ stage = "sms" /\ prior = Fresh /\ calls = <<>>
-         /\ st = [station |-> FALSE, al |-> 1, objpos |-> FALSE, objinit |-> FALSE]
+         /\ st = [station |-> FALSE, al |-> 1, objpos |-> FALSE, objinit |-> FALSE, ebpf |-> FALSE]
 AddSm == /\ stage = "sms" /\ Len(sms) < MaxSm
          /\ \E t \in 0 .. 4 :
               /\ t # 0 => ~HasType(sms, t)
@@ -95,27 +99,27 @@ NextA == AddSm \/ CloseA
 (* ---- part "calls" ---- *)
 InitB == /\ \E k \in 1 .. NCanon : sms = Canon[k] /\ has41 = CanonHas41(k)
          /\ prior \in Priors /\ stage = "calls" /\ calls = <<>>
-         /\ st = [station |-> prior.station, al |-> prior.al, objpos |-> FALSE, objinit |-> FALSE]
-AsInit(al) == [station |-> TRUE, al |-> al, objpos |-> TRUE, objinit |-> TRUE]
+         /\ st = [station |-> prior.station, al |-> prior.al, objpos |-> FALSE, objinit |-> FALSE, ebpf |-> FALSE]
+AsInit(al, eb) == [station |-> TRUE, al |-> al, objpos |-> TRUE, objinit |-> TRUE, ebpf |-> eb]
 Do(op, s2) == calls' = Append(calls, op) /\ st' = s2
 StepB ==
     \/ \E rel, abs \in BOOLEAN :
-          /\ (rel \/ abs) /\ (rel \/ st.station)
-          /\ Do(Op("initialize", rel, abs, 0, 0), AsInit(1))
+          /\ (rel \/ abs) /\ (rel \/ st.station) /\ ~st.ebpf
+          /\ Do(Op("initialize", rel, abs, 0, 0), AsInit(1, FALSE))
     \/ \E rel \in BOOLEAN :
-          /\ rel \/ st.station
+          /\ (rel \/ st.station) /\ ~st.ebpf
           /\ Do(Op("gentle", rel, ~rel, 0, 0),
                 IF st.station /\ st.al # 1
-                THEN [st EXCEPT !.objpos = TRUE, !.objinit = FALSE] ELSE AsInit(1))
+                THEN [st EXCEPT !.objpos = TRUE, !.objinit = FALSE] ELSE AsInit(1, FALSE))
     \/ /\ EbpfOK(sms, has41)
-       /\ Do(Op("ebpf_initialize", TRUE, TRUE, 0, 0), AsInit(4))
-    \/ st.objpos /\ Do(Op("apply_eeprom", FALSE, FALSE, 0, 0), [st EXCEPT !.objinit = TRUE])
+       /\ Do(Op("ebpf_initialize", TRUE, TRUE, 0, 0), AsInit(4, TRUE))
+    \/ st.objpos /\ ~st.ebpf /\ Do(Op("apply_eeprom", FALSE, FALSE, 0, 0), [st EXCEPT !.objinit = TRUE])
     \/ /\ st.objinit
        /\ \E z \in BOOLEAN :
              Do(Op("write_pdo_sm", FALSE, FALSE, IF z THEN 0 ELSE OutSz(sms), IF z THEN 0 ELSE InSz(sms)), st)
     \/ st.objpos /\ Do(Op("set_watchdog", FALSE, FALSE, 1000, 65535), st)
     \/ \E s \in {1, 2, 4, 8} : s # st.al /\ Do(Op("env_al", FALSE, FALSE, s, 0), [st EXCEPT !.al = s])
-    \/ st.objpos /\ Do(Op("newobj", FALSE, FALSE, 0, 0), [st EXCEPT !.objpos = FALSE, !.objinit = FALSE])
+    \/ st.objpos /\ Do(Op("newobj", FALSE, FALSE, 0, 0), [st EXCEPT !.objpos = FALSE, !.objinit = FALSE, !.ebpf = FALSE])
 NextB == /\ stage = "calls" /\ Len(calls) < MaxCalls
          /\ StepB
          /\ UNCHANGED <<sms, has41, stage, prior>>
